@@ -772,3 +772,24 @@ def trace_local(fn, l, depth=6):
         else:
             return l
     return l
+
+
+def defs_by_arm(fn, v, local, matcher, stop=frozenset()):
+    """classify the definitions of `local` by the arm ('pass' / 'fail' edges of the fact matcher) of the switch that
+    exclusively reaches them (regions computed without crossing `stop` blocks, e.g. a loop header).
+    -> {'pass': [terms], 'fail': [terms], None: [terms reached by both / neither]}"""
+    ds = [d for d in fn.defs().get(local, []) if d[0] in ("assign", "call")]
+    edges = {"pass": set(), "fail": set()}
+    for (e, fa) in v.facts:
+        r = matcher(fa)
+        if r in edges:
+            edges[r].add(e)
+    reach = {k: set().union(*[fn.reach(e[1], stop=stop) for e in es]) if es else set() for k, es in edges.items()}
+    out = {"pass": [], "fail": [], None: []}
+    cx = TermCx(v.prog, fn)
+    cx.busy.add(local)   # references to the previous value of `local` become loopvar(local)
+    for d in ds:
+        t = cx.rvalue(d[3], (fn.key, d[1], d[2])) if d[0] == "assign" else cx.call(d[2], (fn.key, d[1]))
+        inp, inf = d[1] in reach["pass"], d[1] in reach["fail"]
+        out["pass" if inp and not inf else "fail" if inf and not inp else None].append(t)
+    return out
